@@ -134,11 +134,9 @@ def check(ctx):
                     cur = cur.orelse[0]
                     chain.append(cur)
                 for c in chain:
-                    t = c.test
-                    if isinstance(t, ast.Compare) and isinstance(t.ops[0], ast.In) and isinstance(t.comparators[0], ast.Set):
-                        elts = {norm(e) for e in t.comparators[0].elts}
-                        if elts == {"None", "Undefined"} and any(_assigns_optional(x) for x in c.body):
-                            f["none_undef_optional"] = True
+                    subj, elts = sentinel_test(c.test)
+                    if subj is not None and "default" in subj and elts == {"None", "Undefined"} and any(_assigns_optional(x) for x in c.body):
+                        f["none_undef_optional"] = True
             if isinstance(n, ast.Try):
                 calls = [c for st in n.body for c in ast.walk(st) if isinstance(c, ast.Call) and dotted(c.func) == "serialize"]
                 if calls:
@@ -155,6 +153,112 @@ def check(ctx):
     ctx.check(("aliaser" in a) == ("aliaser" in b), "C19.R4", "default-serialization:aliaser", None,
               f"the two siblings serialize defaults with different aliaser handling ({a} vs {b})", None, None, detail="both pass aliaser")
 
+    # ---------------- R7 user defaults are never hashed
+    ctx.rule("C19.R7", "a default value supplied by the user (parameter / field default) is never hashed: no membership test against a set literal", floor=3)
+    n7 = 0
+    for fi in model.functions.values():
+        if not fi.module.name.startswith("apischema.graphql"):
+            continue
+        for n in walk_no_nested(fi.node):
+            if isinstance(n, ast.Compare) and len(n.ops) == 1 and isinstance(n.ops[0], (ast.In, ast.NotIn)) and "default" in norm(n.left).lower():
+                n7 += 1
+                ctx.check(not isinstance(n.comparators[0], (ast.Set, ast.Dict, ast.SetComp)), "C19.R7", f"{fi.qualname}:{norm(n.left)}", n,
+                          f"`{short(n, 60)}` hashes a user-supplied default: graphql_schema() raises TypeError for `def op(tags: List[str] = [])` or a field defaulting to a list / dict", fi, n, detail="identity / tuple membership")
+            if isinstance(n, (ast.BoolOp, ast.Compare)):
+                subj, elts = sentinel_test(n)
+                if subj is not None and "default" in subj.lower() and not isinstance(n, ast.Compare):
+                    n7 += 1
+                    ctx.ok("C19.R7", f"{fi.qualname}:{subj}", "sentinels tested by identity / equality", where=fi.loc)
+    ctx.require(n7 >= 3, f"only {n7} sentinel tests of defaults found in apischema.graphql")
+
+    # ---------------- R8 / R9: the by-name type cache
+    ctx.rule("C19.R8", "the result of a @cache_type hook does not depend on scoped traversal state that is not part of the cache key", floor=4)
+    ctx.rule("C19.R9", "a @cache_type factory never invents the name of the type it builds: the cache is keyed by the name it is given", floor=4)
+    scoped_attrs = set()
+    for fi in model.functions.values():
+        if not fi.module.name.startswith("apischema.graphql"):
+            continue
+        for w in ast.walk(fi.node):
+            if isinstance(w, ast.With) and any("context_setter(self)" in norm(i.context_expr) for i in w.items):
+                for st in ast.walk(w):
+                    if isinstance(st, ast.Attribute) and isinstance(st.ctx, ast.Store) and norm(st.value) == "self":
+                        scoped_attrs.add(st.attr)
+    ctx.require(scoped_attrs, "no scoped traversal state found in apischema.graphql (context_setter idiom changed?)")
+    ct = model.func(f"{GQL}.cache_type")
+    key_txt = " ".join(norm(k) for k in ast.walk(ct.node) if isinstance(k, ast.Tuple))
+    cached = [fi for fi in model.functions.values() if fi.module.name == GQL and fi.cls is not None and any(d.split(".")[-1] == "cache_type" for d in fi.decorators)]
+    ctx.require(len(cached) >= 6, f"only {len(cached)} @cache_type hooks found")
+
+    def self_reads(fi, seen):
+        """scoped attributes read by fi, transitively through self.<method>() calls; nested closures included (they
+        are built during the hook call). Reads that are immediately re-bound in a context_setter scope of the same function still count."""
+        out = {}
+        if fi.qualname in seen:
+            return out
+        seen.add(fi.qualname)
+        for n in ast.walk(fi.node):
+            if isinstance(n, ast.Attribute) and isinstance(n.ctx, ast.Load) and norm(n.value) == "self":
+                if n.attr in scoped_attrs:
+                    out.setdefault(n.attr, [fi.qualname])
+                elif fi.cls is not None:
+                    callee = model.find_method(fi.cls.qualname, n.attr)
+                    if callee is not None and callee.module.name.startswith("apischema.graphql") and callee.name not in ("visit", "visit_with_conv", "_visit_field_type"):
+                        for a, chain in self_reads(callee, seen).items():
+                            out.setdefault(a, [fi.qualname] + chain)
+        return out
+
+    for fi in sorted(cached, key=lambda f: f.qualname):
+        reads = self_reads(fi, set())
+        reads = {a: c for a, c in reads.items() if a not in key_txt}
+        ctx.check(not reads, "C19.R8", f"{fi.qualname}", None,
+                  f"{fi.qualname} is cached by (name, hook, description) but its result depends on the traversal state {sorted(reads)} (read through {' -> '.join(next(iter(reads.values()))) if reads else ''}): the type built in one context (a flattened field) is reused in another",
+                  fi, fi.node, detail="no scoped state read")
+        # R9
+        gen = None
+        for f2 in fi.nested.values():
+            for n in walk_no_nested(f2.node):
+                if isinstance(n, ast.Assign) and norm(n.targets[0]) == "name" and "name" in f2.params:
+                    v = n.value
+                    # unwrap_name(name, ...) raises when name is None: it never invents a name
+                    if isinstance(v, ast.Call) and (dotted(v.func) or "") == "unwrap_name":
+                        continue
+                    gen = n
+        ctx.check(gen is None, "C19.R9", f"{fi.qualname}", gen,
+                  f"`{short(gen, 60) if gen is not None else ''}`: the factory computes a name when none is given, but cache_type does not cache unnamed results: every use of the same anonymous type builds a new GraphQL type with the same generated name (schema rejected: multiple types named ...)",
+                  fi, gen if gen is not None else fi.node, detail="named by its caller")
+
+    # ---------------- R11: nested visits start from a defined flattening context
+    ctx.rule("C19.R11", "in the output builder, a nested type visit is started only inside `with context_setter(self)` after (re)binding the flattening state: the state set for a flattened object never leaks into the types of its fields", floor=2)
+    ob = model.cls(f"{GQL}.OutputSchemaBuilder")
+    for name, fi in sorted(ob.methods.items()):
+        parents = {c: p for p in ast.walk(fi.node) for c in ast.iter_child_nodes(p)}
+        for c in ast.walk(fi.node):
+            if isinstance(c, ast.Call) and norm(c.func) in ("self.visit_with_conv", "self.visit"):
+                p = parents.get(c)
+                ok = False
+                while p is not None:
+                    if isinstance(p, ast.With) and any("context_setter(self)" in norm(i.context_expr) for i in p.items):
+                        bound = {st.attr for b in p.body for st in ast.walk(b) if isinstance(st, ast.Attribute) and isinstance(st.ctx, ast.Store) and norm(st.value) == "self"}
+                        ok = scoped_attrs <= bound
+                    p = parents.get(p)
+                # interfaces of a class are visited by object() itself: they are types of their own, built for any context
+                exempt = name == "object" and "get_interfaces" in norm(parents.get(c)) if parents.get(c) is not None else False
+                ctx.check(ok or exempt, "C19.R11", f"{fi.qualname}:{norm(c)[:50]}", c,
+                          f"`{short(c, 60)}` visits a nested type with whatever flattening state is current: inside a flattened field, the resolvers of the nested object are wrapped with the flattening getter and fail at execution", fi, c, detail="inside context_setter with get_flattened rebound")
+
+    # ---------------- R10: defaults are given to graphql-core in its internal form
+    ctx.rule("C19.R10", "argument / input-field defaults are produced in the form resolvers receive arguments (Enum members, as handle_enum assumes)", floor=2)
+    rr = model.func("apischema.graphql.resolvers.resolver_resolve")
+    believes_members = any(isinstance(n, ast.Call) and (dotted(n.func) or "") == "Conversion" and n.args and norm(n.args[0]) == "identity" for n in ast.walk(rr.node)) and "issubclass(tp, Enum)" in norm(rr.node)
+    ctx.require(believes_members, "resolver_resolve no longer treats incoming Enum arguments as members (handle_enum): R10 must be re-derived")
+    for s_ in sib:
+        for c in ast.walk(s_.node):
+            if isinstance(c, ast.Call) and dotted(c.func) == "serialize":
+                kws = {k.arg for k in c.keywords}
+                ctx.check("default_conversion" in kws, "C19.R10", f"{s_.qualname}:default", c,
+                          f"`{short(c, 60)}`: the default is serialized with the plain enum serializer (member.value) while arguments of Enum type are Enum members for graphql-core and for the resolver wrapper: print_schema fails (Enum cannot represent value) and the resolver receives a str when the argument is omitted",
+                          s_, c, detail="enum-preserving serialization")
+
     # ---------------- R6 scoped traversal state
     from .common_scoped import scoped_state_rule
     ctx.rule("C19.R6", "GraphQL builders change traversal state (get_flattened, ...) only inside `with context_setter(self)`", floor=2)
@@ -169,6 +273,23 @@ def check(ctx):
         name_l, ord_l = calls[0].args[2], calls[0].args[3]
         ok = isinstance(name_l, ast.Lambda) and norm(name_l.body).endswith(".name") and isinstance(ord_l, ast.Lambda) and norm(ord_l.body).endswith(".ordering")
     ctx.check(ok, "C19.R5", mf.qualname, mf.node.body[0], "merge_fields does not order fields with sort_by_order(cls, fields, name, ordering)", mf, mf.node, detail="sort_by_order(cls, fields, f.name, f.ordering)")
+
+
+def sentinel_test(t):
+    """(subject, {sentinels}) for `x in {a, b}` / `x in (a, b)` / `x is a or x is b` / `x == a or x == b`, else (None, None)"""
+    if isinstance(t, ast.Compare) and len(t.ops) == 1 and isinstance(t.ops[0], ast.In) and isinstance(t.comparators[0], (ast.Set, ast.Tuple, ast.List)):
+        return norm(t.left), {norm(e) for e in t.comparators[0].elts}
+    if isinstance(t, ast.BoolOp) and isinstance(t.op, ast.Or):
+        subj, elts = None, set()
+        for v in t.values:
+            if not (isinstance(v, ast.Compare) and len(v.ops) == 1 and isinstance(v.ops[0], (ast.Is, ast.Eq))):
+                return None, None
+            if subj not in (None, norm(v.left)):
+                return None, None
+            subj = norm(v.left)
+            elts.add(norm(v.comparators[0]))
+        return subj, elts
+    return None, None
 
 
 def _assigns_optional(st) -> bool:
@@ -188,7 +309,11 @@ def mutants(mb):
     mb.add_text("error-not-recorded", R, "                except ValidationError as err:\n                    errors[alias] = err\n", "                except ValidationError as err:\n                    values[param_name] = None\n", "C19.R3", "")
     mb.add_text("error-key-param-name", R, "                    errors[alias] = err\n", "                    errors[aliaser(param_name)] = err\n", "C19", "")
     mb.add_text("values-raw", R, "                    values[param_name] = deserializer(kwargs[alias])\n", "                    values[param_name] = kwargs[alias]\n", "C19.R3", "values")
-    mb.add_text("resolver-no-optional-on-none", G, "                elif param.default in {None, Undefined}:\n                    param_type = Optional[param_type]\n", "                elif param.default in {None, Undefined}:\n                    pass\n", "C19.R4", "_resolver")
+    mb.add_text("resolver-no-optional-on-none", G, "                elif param.default is None or param.default is Undefined:\n                    param_type = Optional[param_type]\n", "                elif param.default is None or param.default is Undefined:\n                    pass\n", "C19.R4", "_resolver")
+    mb.add_text("default-hashed", G, "                elif param.default is None or param.default is Undefined:\n", "                elif param.default in {None, Undefined}:\n", "C19.R7", "_resolver")
+    mb.add_text("field-default-hashed", G, "        if field_default is None or field_default is Undefined:\n", "        if field_default in {None, Undefined}:\n", "C19.R7", "_field")
+    mb.add_text("flatten-context-leaks-to-field-types", G, "        factory = self._visit_field_type(field.type, field.serialization)\n", "        factory = self.visit_with_conv(field.type, field.serialization)\n", "C19.R11", "_field")
+    mb.add_text("neg-default-tuple-membership", G, "                elif param.default is None or param.default is Undefined:\n", "                elif param.default in (None, Undefined):\n", negative=True)
     mb.add_text("field-no-fallback-optional", G, "            except Exception:\n                field_type = Optional[field_type]\n", "            except Exception:\n                raise\n", "C19.R4", "_field")
     mb.add_text("default-no-aliaser", G, "                            param.default,\n                            aliaser=self.aliaser,\n", "                            param.default,\n", "C19", "")
     mb.add_text("out-field-name", G, "        flattened_factories = []\n        for field in fields:\n            if not field.is_aggregate:\n                normal_field = NormalField(\n                    self.aliaser(field.alias),", "        flattened_factories = []\n        for field in fields:\n            if not field.is_aggregate:\n                normal_field = NormalField(\n                    self.aliaser(field.name),", "C19", "OutputSchemaBuilder.object")
